@@ -272,3 +272,36 @@ Theorem C14_packet_over_1280_with_large_maximum_refuted :
       wire_size (nodes_msg_size rsize p) = MAX_PACKET_SIZE + 1.
 Proof. exact packet_over_1280_with_large_maximum. Qed.
 Print Assumptions C14_packet_over_1280_with_large_maximum_refuted.
+
+(* Configuration plumbing (Model/Config.v, transcribing ConfigBuilder, Config, Discv5::new / Discv5::start,
+   tied to the code by the `glue` correspondence run on real loopback sockets): the parameters the theorems
+   above take as given are the ones the application configured - the value set last through the builder,
+   or the default - at every component they are handed to. *)
+Require Discv5V.Generated.Params Discv5V.Model.Config Discv5V.Proofs.Config.
+Theorem C14_configured_max_nodes_response_reaches_the_service : forall ops v, Discv5V.Model.Config.start_node ops = Some v ->
+  Discv5V.Model.Config.VN (Discv5V.Model.Config.c_max_nodes_response (Discv5V.Model.Config.nv_built v)) = Discv5V.Model.Config.configured ops Discv5V.Model.Config.FMaxNodesResponse /\
+  Discv5V.Model.Config.VN (Discv5V.Model.Config.c_max_nodes_response (Discv5V.Model.Config.nv_service v)) = Discv5V.Model.Config.configured ops Discv5V.Model.Config.FMaxNodesResponse /\
+  Discv5V.Model.Config.VN (Discv5V.Model.Config.c_max_nodes_response (Discv5V.Model.Config.nv_handler v)) = Discv5V.Model.Config.configured ops Discv5V.Model.Config.FMaxNodesResponse.
+Proof. exact Discv5V.Proofs.Config.effective_max_nodes_response. Qed.
+Print Assumptions C14_configured_max_nodes_response_reaches_the_service.
+Theorem C14_configuration_example : exists v, Discv5V.Model.Config.start_node Discv5V.Proofs.Config.example_ops = Some v.
+Proof. destruct Discv5V.Proofs.Config.example_starts as [v [H _]]. exists v. exact H. Qed.
+Print Assumptions C14_configuration_example.
+
+(* The receive task in front of the handler (RecvHandler::handle_inbound, Model/Limiter.v recv_inbound,
+   compared with the real task through the virtual handler on generated datagrams): *)
+Require Discv5V.Model.Limiter Discv5V.Proofs.Limiter.
+Module C14Recv.
+Import Discv5V.Model.Limiter.
+Theorem C14_receive_task_forwards_the_datagram_source : forall (f : pfilter) (p : pbl) (expected : list saddr) (src : saddr) (packet : option pkind) (now : N),
+  let fwd := snd (recv_inbound f p expected src packet now) in
+  fwd = normalise_src src /\ sa_ip fwd = sa_ip src /\ sa_port fwd = sa_port src /\ sa_flow fwd = 0%N /\ sa_scope fwd = 0%N.
+Proof. exact Discv5V.Proofs.Limiter.inbound_forwards_normalised_source. Qed.
+Print Assumptions C14_receive_task_forwards_the_datagram_source.
+Theorem C14_decoded_packet_reaches_the_handler : forall (f : pfilter) (p : pbl) (expected : list saddr) (src : saddr) (k : pkind) (now : N),
+  enabled f = false -> has_key (sa_ip src) (ban_ips p) = false ->
+  (forall id : N, packet_src_id k = Some id -> has_key id (ban_nodes p) = false) ->
+  recv_inbound f p expected src (Some k) now = (f, p, Deliver, normalise_src src).
+Proof. exact Discv5V.Proofs.Limiter.unfiltered_packet_is_delivered. Qed.
+Print Assumptions C14_decoded_packet_reaches_the_handler.
+End C14Recv.
